@@ -12,13 +12,14 @@ SUB = {
 }
 CHECK = {
     "id": "C43",
-    "packages": ["./actor"],
-    "harness": ["actor/zz_verif_rd.go", "actor/zz_verif_c43.go"],
+    "packages": ["./actor", "./internal/commands"],
+    "harness": ["actor/zz_verif_rd.go", "actor/zz_verif_c43.go", "internal/commands/zz_verif_rd.go"],
     "entries": [
         {"fn": P + "vC43_producer", "replay": "model-only"},
-        {"fn": P + "vC43_consumer", "replay": "model-only"},
+        {"fn": P + "vC43_consumer", "replay": "model-only", "cases": {"kind": [0, 1, 2, 3, 4], "bufLen": [0, 1, 2, 3]},
+         "cover_optional": ("demand-granted", "buffered", "buffer-full")},
     ],
-    "opts": {"unwind": 8, "substitute": SUB},
+    "opts": {"unwind": 6, "substitute": SUB, "feasibility": False, "fresh_solver": True},
     "stop": [k for k in SUB.keys() if k.startswith("(*" + P)],
     "explanation": "TODO",
     "bounds": {},
